@@ -442,7 +442,9 @@ class DataFile:
     if not self.is_in_extension:
       self.tti_tf = b''
 
-    self.tti_tf += tti.TF.strip(b'\x8f')
+    # the text field ends at the first unused space byte
+
+    self.tti_tf += tti.TF.split(b'\x8f', 1)[0]
 
     is_double_height_characters = tf.has_double_height_char(self.tti_tf)
 
